@@ -222,7 +222,7 @@ func runC20(r *Run) {
 		r.out.Count(fmt.Sprintf("features:%d", features))
 		for _, format := range []string{"cbe", "cte"} {
 			key := fmt.Sprintf("f%d:%s", features, format)
-			res, hung := withWatchdog(20*time.Second, func() string {
+			res, hung := withWatchdog(120*time.Second, func() string {
 				var doc []byte
 				var err error
 				if format == "cbe" {
@@ -292,7 +292,7 @@ func runC20(r *Run) {
 				if evs != nil {
 					r.out.Line("corr", fmt.Sprintf("%d", idx), "GRAPH.EMIT", []string{fmt.Sprintf("%d", g.root), g.cells()}, abstractGraphEvents(evs))
 				}
-			case <-time.After(20 * time.Second):
+			case <-time.After(120 * time.Second):
 				r.out.Finding("C20", "hang:iterate", "iterating a pointer graph with recursion support does not terminate", text)
 			}
 		}
